@@ -71,7 +71,7 @@ RULE = (
 ASSUMES = [
     "'window resize' is an input event seen by the input filter only (MainLoop documents that it handles resizing itself); it is not expected at the widget",
     "the pop-up routing model: with pop_ups=True a key goes to the pop-up widget while one is open, a mouse event goes to it iff it lies inside the pop-up rectangle",
-    "the logical redraw rule (>= 50 ms between an event and a later alarm's due time => a redraw of that state lies between them) stands for 'before the loop next waits'",
+    "the logical redraw rule (>= 50 ms between an event and a later alarm's due time => a redraw of that state lies between them) stands for 'before the loop next waits'; because a descheduled process can fake its precondition, an RDW violation is reported only if two re-executions of the same session show it again",
     "SIGINT under TwistedEventLoop is changed by the Twisted reactor itself (reactor.run installs it), not by the display; it is counted, not judged",
     "a screen without external event-loop support is modelled by a raw Screen subclass whose hook_event_loop attribute is absent; MainLoop only accepts it with the default SelectEventLoop, and watch_file/watch_pipe are not serviced there (not judged)",
     "vt.py is the judge of what the byte stream does to a terminal; the bytes are those read from the pty master",
@@ -592,6 +592,19 @@ def shrink_and_report(ctx, spec, res, vs, known, base_rst=None):
             continue
         wit = spec
         s2 = sig.replace(" ", "_")
+        if "|RDW|" in sig and s2 not in known and s2 not in ctx.violations and not ctx.replaying:
+            # the precondition of the redraw rule (">= 50 ms between the event and the alarm's due time, so the loop must
+            # have waited") is the one place where a descheduled process can fake a violation: the verdict needs the
+            # same signature from two more executions of the same session
+            again = 0
+            for _ in range(2):
+                r2 = pty_term.run_session(spec, 30.0)
+                if r2 and "log" in r2 and any(s == sig for s, _ in judge(spec, r2, core.Ctx("C12", ctx.tier, ctx.seed, 0, 1, 1.0), base_rst)):
+                    again += 1
+            if again < 2:
+                ctx.count("RDW_unconfirmed_not_reproducible")
+                continue
+            ctx.count("RDW_confirmed_by_rerun")
         if s2 not in known and s2 not in ctx.violations and spec.get("inject") and not ctx.replaying:
             cand = _truncated(spec, res)
             if cand is not None:
